@@ -24,7 +24,10 @@ BlockConsts(cs) ==
       firsts == SelectSeq(Idx(Len(ws)), LAMBDA i : \A j \in 1..(i - 1) : ws[j] # ws[i])
   IN  [i \in 1..(IF Len(firsts) > 8 THEN 8 ELSE Len(firsts)) |-> ws[firsts[i]]]
 Vals(cs)  == V16 \o BlockConsts(cs)
-Depth(cs) == MinDepth(cs.orig)
+\* C01 demands that the emitted block needs no deeper stack; C05 (depthcheck FALSE) only asks whether a state with
+\* enough stack for both blocks tells them apart
+DepthCheck == IF "depthcheck" \in DOMAIN Input THEN Input.depthcheck ELSE TRUE
+Depth(cs) == LET a == MinDepth(cs.orig)  b == MinDepth(cs.opt) IN IF a > b \/ DepthCheck THEN a ELSE b
 Size(cs)  == IF Depth(cs) = 0 THEN 2 ELSE GridSize(Depth(cs), Len(Vals(cs)), Cap)
 StartState(cs, idx) ==
   InitState(IF Depth(cs) = 0 THEN <<>> ELSE GridStack(Depth(cs), Vals(cs), Cap, Seed, idx),
@@ -32,7 +35,7 @@ StartState(cs, idx) ==
 
 Verdict(cs, idx) ==
   IF \E ins \in Range(cs.orig) \cup Range(cs.opt) : ~Known(ins) THEN "undecided-unsupported"
-  ELSE IF MinDepth(cs.opt) > MinDepth(cs.orig) THEN "depth"
+  ELSE IF DepthCheck /\ MinDepth(cs.opt) > MinDepth(cs.orig) THEN "depth"
   ELSE IF ~SameDelta(cs.orig, cs.opt) THEN "delta"
   ELSE
   LET s0 == StartState(cs, idx)
